@@ -155,7 +155,7 @@ def cmd_discover(args):
             output.append({
                 'raw_description': raw_desc,
                 'suggested_merchant': merchant,
-                'suggested_rule': suggest_merchants_rule(merchant, pattern, tags=suggested_tags),
+                'suggested_rule': suggest_merchants_rule(merchant, suggest_needle(raw_desc), tags=suggested_tags),
                 'suggested_tags': suggested_tags,
                 'has_negative': stats['has_negative'],
                 'count': stats['count'],
@@ -190,7 +190,7 @@ def cmd_discover(args):
             print(f"   Suggested merchant: {merchant}")
             print()
             print(f"   {C.DIM}[{merchant}]")
-            print(f"   match: contains(\"{pattern}\")")
+            print(f"   match: contains({quote_needle(suggest_needle(raw_desc))})")
             print(f"   category: CATEGORY")
             print(f"   subcategory: SUBCATEGORY")
             if stats['has_negative']:
@@ -201,8 +201,8 @@ def cmd_discover(args):
     _print_deprecation_warnings(config)
 
 
-def suggest_pattern(description):
-    """Generate a suggested regex pattern from a raw description."""
+def clean_description(description):
+    """Upper-case a raw description and strip the parts that vary between transactions."""
     import re
 
     desc = description.upper()
@@ -221,6 +221,15 @@ def suggest_pattern(description):
 
     # Clean up
     desc = desc.strip()
+
+    return desc
+
+
+def suggest_pattern(description):
+    """Generate a suggested regex pattern from a raw description."""
+    import re
+
+    desc = clean_description(description)
 
     # Escape regex special characters but keep it readable
     # Only escape characters that are common in descriptions
@@ -262,12 +271,32 @@ def suggest_merchant_name(description):
     return 'Unknown'
 
 
-def suggest_merchants_rule(merchant_name, pattern, tags=None):
-    """Generate a suggested rule block in .rules format."""
-    # Escape quotes in pattern if needed
-    escaped_pattern = pattern.replace('"', '\\"')
+def suggest_needle(description):
+    """Literal text for a contains() rule: the leading words of the cleaned description,
+    kept only as far as they occur verbatim (ignoring case) in the description itself."""
+    upper = description.upper()
+    words = clean_description(description).split()[:3]
+    while words:
+        needle = ' '.join(words)
+        if needle.upper() in upper:
+            return needle
+        words.pop()
+    first = upper.split()[:1]
+    return first[0] if first else ''
+
+
+def quote_needle(needle):
+    """Quote text as a string literal of the rule expression language."""
+    import json
+    return json.dumps(needle, ensure_ascii=False)
+
+
+def suggest_merchants_rule(merchant_name, needle, tags=None):
+    """Generate a suggested rule block in .rules format.
+
+    `needle` is literal text (see suggest_needle): contains() does a substring test, not a regex search."""
     rule = f"""[{merchant_name}]
-match: contains("{escaped_pattern}")
+match: contains({quote_needle(needle)})
 category: CATEGORY
 subcategory: SUBCATEGORY"""
     if tags:
